@@ -359,7 +359,7 @@ def check_package(acc, pkg, st, base, wit):
             ok = text is not None and re.fullmatch(r"[0-9]+", text) is not None and int(text) == want
         else:
             try:
-                inst = w3c_instant(text.strip())
+                inst = w3c_instant(text)
             except OverflowError:
                 inst = None
             ok = inst is not None and inst[0] == want
@@ -560,7 +560,7 @@ def read_w3c(acc, gran, text):
     part = pptx.Presentation(io.BytesIO(pkg)).core_properties
     acc.count("handbuilt_documents_read")
     try:
-        inst = w3c_instant(text)
+        inst = w3c_instant(text.strip())
     except OverflowError:
         inst = "unrepresentable"
     for n in props or DATES:
